@@ -3219,11 +3219,15 @@ func _case(n *node) {
 						}
 						return fnext
 					}
-					if v := val.node; v != nil {
-						for _, typ := range types {
-							if v.typ.id() == typ.id() {
+					for _, typ := range types {
+						if val.node == nil {
+							if typ.cat == nilT && !val.value.IsValid() {
 								return tnext
 							}
+							continue
+						}
+						if val.node.typ.id() == typ.id() {
+							return tnext
 						}
 					}
 					return fnext
@@ -3283,6 +3287,10 @@ func _case(n *node) {
 							destValue(f).Set(vi.value)
 							return tnext
 						}
+					} else if typ.cat == nilT && !vi.value.IsValid() {
+						// match nil interface value against nil
+						destValue(f).Set(v)
+						return tnext
 					}
 					return fnext
 				}
@@ -3323,12 +3331,17 @@ func _case(n *node) {
 					return fnext
 				}
 				if vi, ok := val.Interface().(valueInterface); ok {
-					if v := vi.node; v != nil {
-						for _, typ := range types {
-							if v.typ.id() == typ.id() {
+					for _, typ := range types {
+						if vi.node == nil {
+							if typ.cat == nilT && !vi.value.IsValid() {
 								destValue(f).Set(val)
 								return tnext
 							}
+							continue
+						}
+						if vi.node.typ.id() == typ.id() {
+							destValue(f).Set(val)
+							return tnext
 						}
 					}
 					return fnext
